@@ -215,12 +215,12 @@ def r14_3(ctx, rc):
     H = ctx.E.func(handoff)
     getter = ctx.E.func('BuildDirs.norm_cased_error_created_dirs')
     gattr = None
-    for n in ast.walk(getter.node):
-        if isinstance(n, ast.Return):
-            for x in ast.walk(n.value):
-                if isinstance(x, ast.Attribute) and isinstance(
-                        x.value, ast.Name) and x.value.id == getter.self_name:
-                    gattr = x.attr
+    gcfg = ctx.E.cfgs.get(getter)
+    for rn in gcfg.nodes:
+        if rn.kind == 'return' and rn.ast.value is not None:
+            for o in ctx.H.origins(rn.ast.value, getter, rn):
+                if o[0] == 'attr' and o[1] == 'BuildDirs':
+                    gattr = o[2]
     if gattr is None:
         raise AnalysisError('error-created set not identified')
     ok = False
